@@ -19,13 +19,13 @@ CLAIMS = {
  "C10": ("model_checking", "real InnerProductProof::create/verify through the guarded re-export with symbolic a, b and factor vectors: completeness identity, verdict == explicit folding for arbitrary proof objects, exactly k rounds, length mismatch and degenerate cross terms", "4/C10"),
  "C13": ("model_checking", "commit(v,r) = v*B + r*Bblind, homomorphism, scaling, Prover::commit, for symbolic v, r and arbitrary bases (loop-free: no size bound), plus structured literal limb patterns", "4/C13"),
  "C18": ("translation_validation", "translation validation against a pinned reference protocol (independent prover, unbatched verifier, transcript schedule, generator derivation, byte layout in symark/src/{refimpl,oracle,scen_c06}.rs): z3 proves the real prover's messages and the real verifier's check equal the reference formulas for all values; both provers are run against both verifiers natively on all three curves. Recorded byte-level fixtures of the reference revision are NOT used (none exist in the tree; see DESIGN 4/C18)", "4/C18"),
+ "C14": ("model_checking", "the MIR of the specialised multiply-by-a routine (re-dumped from the current tree) is translated into integer arithmetic mod p and three SMT solvers prove it equals multiplication by the declared coefficient for EVERY field element; generator-on-curve, cofactor, cofactor inverse, scalar modulus = 2^255-19 and the Hasse-interval condition are ground relations over the constants exported by the compiled crate. Primality of the moduli and the exact group order are NOT claimed (DESIGN 4/C14)", "4/C14", "mir/c14.py (Engine M)", "trusted: rustc's MIR dump, ark_ff::Fp's ring contract, agreement of z3 4.8.12 / z3 5.1.0 / cvc5; not covered: primality of p and r, point count", "MIR -> SMT-LIB (integers mod p) translation of a loop-free leaf function; three solvers"),
  "C15": ("model_checking", "for seeded expression trees over every operator impl z3 proves the denotation of the built LinearCombination equals the tree's value for all coefficient and variable values; the constraint pipeline accepts exactly the reference constant (C02 characterisation)", "4/C15"),
 }
 NA = {
  "C08": "Engine K (Kani) harnesses under construction in this round",
  "C11": "Engine K (Kani) harnesses under construction in this round",
  "C12": "Engine K (Kani) harnesses under construction in this round",
- "C14": "Engine M (MIR->SMT) check under construction in this round",
  "C16": "Engine K (Kani) harnesses under construction in this round",
  "C17": "Engine K (Kani) harness + Engine S capacity-independence under construction in this round",
 }
@@ -46,7 +46,7 @@ for pid in sorted(CLAIMS):
     checks.append({"property_id": pid, "quick_cmd": "./check %s --tier quick" % pid, "thorough_cmd": "./check %s --tier thorough" % pid, "evidence_file": "evidence/%s.json" % pid,
                    "replay_cmd_template": "./check --replay {path}", "engine": engine, "level_claimed": {"category": cat, "text": text, "design_ref": ref}, "level_note": note, "technique": tech})
 m = {"version": 1,
-     "setup_cmd": "cd symark && CARGO_NET_OFFLINE=true cargo build --release --offline",
+     "setup_cmd": "cd symark && CARGO_NET_OFFLINE=true cargo build --release --offline && cd /repo && CARGO_NET_OFFLINE=true CARGO_TARGET_DIR=/verif/mir/target cargo +nightly rustc --offline --lib -- -Zunpretty=mir > /dev/null",
      "hooks": {"guard": "verif-hooks (cargo feature of /repo, off by default)", "enable": "path dependency on /repo with features=[\"verif-hooks\"] in symark/Cargo.toml and kani/Cargo.toml", "baseline_off_cmd": "cd /repo && cargo test --workspace --no-fail-fast --offline", "source_commits": ["5ee7c7d", "40245a6"], "add_only": True},
      "engines": [{"name": "symark", "path": "symark/", "serves_properties": sorted(p for p in CLAIMS if len(CLAIMS[p]) <= 3 or "symark" in CLAIMS[p][3]), "kind_free_text": "symbolic instantiation of the repo's generic code (carrier field/group types building SMT terms, concrete shadow on a real curve, instrumented Merlin) + z3/cvc5; native replay on secq256k1"}],
      "checks": checks,
